@@ -40,16 +40,16 @@ func (p *NamespaceEscalation) Check(
 
 	// All objects need to be namespace-scoped and either have a namespace equal
 	// to their owner or empty so it can be defaulted.
-	if len(obj.GetNamespace()) > 0 {
-		if obj.GetNamespace() != owner.GetNamespace() {
-			violations = append(violations, Violation{
-				Position: "Object " + obj.GetName(),
-				Error:    "Must stay within the same namespace.",
-			})
-		}
+	if len(obj.GetNamespace()) > 0 && obj.GetNamespace() != owner.GetNamespace() {
+		violations = append(violations, Violation{
+			Position: "Object " + obj.GetName(),
+			Error:    "Must stay within the same namespace.",
+		})
 		return
 	}
 
+	// The scope of the kind has to be checked whether or not a namespace is given:
+	// reads, patches and updates of cluster-scoped kinds ignore the namespace.
 	gvk := obj.GetObjectKind().GroupVersionKind()
 	mapping, err := p.restMapper.RESTMapping(gvk.GroupKind(), gvk.Version)
 	if meta.IsNoMatchError(err) {
